@@ -152,6 +152,7 @@ package netflow9
 // no record overran the set) or the error is fatal and Decode returns nil.
 //@ func (*Decoder).decodeSet
 //@   names d mem msg _ startCount setHeader err tr err ok minLen setId tr data leftoverBytes _ skipErr
+//@   opt countcalls insert
 //@   callassert insert: sameview(arg1, d.raddr) && arg0 == arg2.TemplateID
 //@   callassert insert: setHeader.FlowSetID == 0 ==> len(arg2.FieldSpecifiers) == arg2.FieldCount && len(arg2.ScopeFieldSpecifiers) == 0   // exactly the specifiers of this template record
 //@   callassert retrieve: arg0 == setHeader.FlowSetID && sameview(arg1, d.raddr)
@@ -185,6 +186,7 @@ package netflow9
 //@     exit [allrecords] err == nil && setHeader.FlowSetID > 255 ==> setHeader.Length - (d.reader.count - startCount) < specMinRec9(tr) || len(d.reader.data) < specMinRec9(tr)
 //@     invariant [tpl] setHeader.FlowSetID > 255 && cacheHas9(old(mem), d.raddr, setHeader.FlowSetID) ==> tr == cacheGet9(old(mem), d.raddr, setHeader.FlowSetID)
 //@     step [record] len(msg.DataSets) == iter(len(msg.DataSets)) || (len(msg.DataSets) == iter(len(msg.DataSets)) + 1 && setHeader.FlowSetID > 1)
+//@     step [stored] setHeader.FlowSetID <= 1 && err == nil ==> calls_insert == iter(calls_insert) + 1   // every template record that parses is stored (with the arguments the call assertions fix), exactly once
 //@     invariant [wf] wellFormed9(mem)
 //@     decreases len(d.reader.data) + (err == nil ? 1 : 0)
 
@@ -194,6 +196,7 @@ package netflow9
 //@   requires rdr(d.reader) && d.reader.count == 0 && len(d.reader.base) <= 65535 && wellFormed9(mem)
 //@   ensures (len(old(d.reader.base)) < 20 || be16(old(d.reader.base), 0) != 9) ==> result == nil && err != nil
 //@   ensures result != nil ==> phdrAt(result.Header, old(d.reader.base), 0)
+//@   ensures [allsets] result != nil ==> len(d.reader.data) <= 4   // every set that could hold a record was visited: nothing but padding is left behind
 //@   ensures result == nil ==> err != nil
 //@   ensures result != nil ==> jssafe(result.AgentID) && result.AgentID == ipText(d.raddr)
 //@   ensures [records] result != nil ==> len(result.DataSets) <= len(old(d.reader.base))
@@ -204,6 +207,9 @@ package netflow9
 //@     invariant phdrAt(msg.Header, d.reader.base, 0)
 //@     invariant len(msg.DataSets) <= d.reader.count
 //@     invariant forall q :: decodeErrors.off <= q && q < decodeErrors.off + len(decodeErrors) ==> decodeErrors.arr[q] != nil
+//@     step [framing.reserved] 4 <= be16(d.reader.base, iter(d.reader.count)) && be16(d.reader.base, iter(d.reader.count)) <= 255 ==> d.reader.count == iter(d.reader.count) + be16(d.reader.base, iter(d.reader.count) + 2)   // a reserved flowset moves the reader by exactly its declared length
+//@     step [framing.unknown] be16(d.reader.base, iter(d.reader.count)) > 255 && !cacheHas9(iter(mem), d.raddr, be16(d.reader.base, iter(d.reader.count))) ==> d.reader.count == iter(d.reader.count) + be16(d.reader.base, iter(d.reader.count) + 2)   // so does a flowset whose template is unknown
+//@     step [framing.atleast] d.reader.count >= iter(d.reader.count) + be16(d.reader.base, iter(d.reader.count) + 2)
 //@     decreases len(d.reader.data)
 
 //@ func combineErrors
